@@ -198,7 +198,7 @@ func propC16(r *Run, w *World) {
 		view := fmt.Sprintf("*[%d]byte(unsafe.Pointer(p0))[:]", fullSz)
 		ps, _ := Paths(fn, PathOpts{})
 		for i, p := range ps {
-			ret := p.Return()
+			ret := p.Ret()
 			key := fmt.Sprintf("FromWireFormat path#%d [%s]", i, strings.Join(p.Lits(), " ∧ "))
 			copies := p.CallsNamed("copy")
 			zeroed := false
